@@ -513,6 +513,15 @@ package zygo
 // whose binding form carries the body itself
 //@ func lowerRangeFor
 //@ C06 assert body-is-in-the-loop-once @before call prattForList[0]: len(arg3) == 1 + ite(len(targets) == 2 && op == "=", 0, len(body))
+// the struct-declaration printer pads every column to the width FieldWidths recorded for it and
+// AlignString computes the padding as (recorded width - len(text)): both sides must measure the same
+// text with the same measure (bytes), or the padding goes negative and strings.Repeat panics -- in
+// BindSymbol's eager trace arguments, outside any recover
+//@ func (*SexpField).FieldWidths
+//@ ghost valueText := "" @entry
+//@ ghost valueText := ret0 @after call SexpString[*]
+//@ C01 assert value-width-is-the-byte-length-of-the-printed-value @before call append[1]: arg1[0] == len(valueText) + 1
+//@ C01 assert key-width-is-the-byte-length-of-the-printed-key @before call append[0]: arg1[0] == len(str)
 // mdef: every target slot is filled with a symbol before the value is compiled; the bind
 // instruction hands each one to BindSymbol, which dereferences it
 //@ func (*Generator).GenerateMultiDef
